@@ -376,8 +376,9 @@ def fresh_like(ctx, v, name):
 
 
 class Interp:
-    def __init__(self, ctx, globals_, module=None, loops=None, exc_parents=None, fnname='', module_names=None, exact=False):
+    def __init__(self, ctx, globals_, module=None, loops=None, exc_parents=None, fnname='', module_names=None, exact=False, unroll_while=0):
         self.ctx = ctx
+        self.unroll_while = unroll_while  # 0: a while loop with a symbolic guard needs an invariant
         self.exact = exact  # float literals and int/int division are exact rationals (machine arithmetic as mathematical)
         self.globals = globals_
         self.module = module
@@ -795,6 +796,10 @@ class Interp:
                         go = True
                     elif z3.is_false(cs):
                         go = False
+                    elif self.unroll_while and n < self.unroll_while:
+                        # opt-in (contract.unroll_while = N): exact path split on the guard, at most N iterations per
+                        # loop; used where the trip count is bounded by a concrete structure (rank) of the inputs
+                        go = ctx.branch(cs)
                     else:
                         raise Unsupported('while loop #%d (line %d) has a symbolic guard and no invariant in the contract' % (k, s.lineno))
                 if not go:
